@@ -5,6 +5,7 @@
    numbers are hexadecimal *)
 open Model
 open Util
+open ExecM
 
 let ev_of (s : sexp) : event = match s with
   | L [A "c"; A i] -> Commit (n_of_hex i)
